@@ -144,19 +144,23 @@ func getGlobalBufferManagerWithMemFd(bufferPathName string, memFd int, capacity 
 		}
 
 		if err := syscall.Ftruncate(memFd, int64(capacity)); err != nil {
+			_ = syscall.Close(memFd)
 			return nil, fmt.Errorf("getGlobalBufferManagerWithMemFd truncate share memory failed:%w", err)
 		}
 	} else {
 		var fInfo syscall.Stat_t
 		err = syscall.Fstat(memFd, &fInfo)
 		if err != nil {
+			_ = syscall.Close(memFd)
 			return nil, fmt.Errorf("getGlobalBufferManagerWithMemFd mapping failed:%w", err)
 		}
 		capacity = uint32(fInfo.Size)
 	}
 
+	// from here on the descriptor (created above or received from the peer) is ours: no manager will close it if we fail
 	mem, err := syscall.Mmap(memFd, 0, int(capacity), syscall.PROT_READ|syscall.PROT_WRITE, syscall.MAP_SHARED)
 	if err != nil {
+		_ = syscall.Close(memFd)
 		return nil, fmt.Errorf("getGlobalBufferManagerWithMemFd Mmap failed:%w", err)
 	}
 
@@ -169,6 +173,7 @@ func getGlobalBufferManagerWithMemFd(bufferPathName string, memFd int, capacity 
 
 	if err != nil {
 		_ = syscall.Munmap(mem)
+		_ = syscall.Close(memFd)
 		return nil, err
 	}
 
